@@ -240,6 +240,8 @@ def instrument(ctx, monitor, max_events):
         monitor.on_before_get(ctx)
         h = real_get()
         pending_before["handler"] = h
+        last = getattr(sched, "_last_returned_event", None)   # private: the time of the entry the scheduler returned
+        ctx.last_returned_time = (last[0].quotient, last[0].remainder) if last else None
         monitor.on_get(ctx, h)
         return h
 
@@ -253,7 +255,13 @@ def instrument(ctx, monitor, max_events):
     def write(name, *args):
         monitor.on_write(ctx, name, args)
         if args and args[0] is ctx.mediator:
-            return None   # a dump of the instrumented mediator is not written (C19 exercises real dumps)
+            # a dump of the instrumented mediator is not written (C19 exercises real dumps); what pickling does to the
+            # live objects is emulated by invoking the custom __getstate__ of the scheduler and of the potentials
+            for obj in [ctx.scheduler] + [getattr(h, a, None) for h in ctx.handlers
+                                          for a in ("_potential", "_bounding_potential")]:
+                if obj is not None and "__getstate__" in type(obj).__dict__:
+                    obj.__getstate__()
+            return None
         return real_write(name, *args)
     io_h.write = write
 
